@@ -93,7 +93,9 @@ def generic_templates():
         "import dataclasses\n"
         "S = typing.TypeVar('S')\n"
         "@dataclasses.dataclass\nclass GBase(typing.Generic[T, S]):\n    x: T\n    y: S\n"
-        "@dataclasses.dataclass\nclass GChild(GBase[S, T], typing.Generic[T, S]):\n    pass\n",
+        "@dataclasses.dataclass\nclass GChild(GBase[S, T], typing.Generic[T, S]):\n    pass\n"
+        "type RJ = int | list[RJ]\n"
+        "class RTD(typing.TypedDict):\n    a: RJ\n",
         "<c03 templates>", "exec", dont_inherit=True), m.__dict__)   # (exec of a string would inherit this module's __future__ flags)
     GN, GT = m.GN, m.GT
     GChild = m.GChild
@@ -105,6 +107,9 @@ def generic_templates():
         "List of generic NamedTuple": (typing.List[GN[int]], [["1", ["2"]]], [GN(1, [2])]),
         # GChild[int, str]: T=int, S=str -> GBase[str, int] -> x: str, y: int (the arguments follow Generic[T, S])
         "generic dataclass re-ordering its parent's parameters": (GChild[int, str], {"x": "5", "y": "7"}, GChild(x="5", y=7)),
+        # a recursive union alias at an indexed position: the recursion decodes the element at hand
+        "recursive union alias as a tuple member": (typing.Tuple[m.RJ, int], [[[1], [2]], 3], ([[1], [2]], 3)),
+        "recursive union alias as a TypedDict member": (m.RTD, {"a": [[1], [2, [3]]]}, {"a": [[1], [2, [3]]]}),
     }
 
 
